@@ -152,6 +152,21 @@ class World:
         t.__qualname__ = c.__qualname__
         t.__real__ = c
         self._cls[c] = t
+        # zero-argument super() reads the `__class__` closure cell: point it at the twin class
+        for k, v in list(t.__dict__.items()):
+            fn = v.__func__ if isinstance(v, (staticmethod, classmethod)) else v
+            if isinstance(fn, types.FunctionType) and "__class__" in fn.__code__.co_freevars and fn.__closure__:
+                cells = list(fn.__closure__)
+                cells[fn.__code__.co_freevars.index("__class__")] = types.CellType(t)
+                nf = types.FunctionType(fn.__code__, fn.__globals__, fn.__name__, fn.__defaults__, tuple(cells))
+                nf.__kwdefaults__ = fn.__kwdefaults__
+                nf.__qualname__ = fn.__qualname__
+                nf.__dict__.update(fn.__dict__)
+                if isinstance(v, staticmethod):
+                    nf = staticmethod(nf)
+                elif isinstance(v, classmethod):
+                    nf = classmethod(nf)
+                setattr(t, k, nf)
         # patch globals that captured the placeholder
         for g in self._g.values():
             for k, v in list(g.items()):
